@@ -128,7 +128,9 @@ def _safe(x):
 def cmp_error(e, cls_name, fields):
     """dict of sub-goals comparing a real exception object with the expected record"""
     g = {}
-    g["class"] = type(e).__name__ == cls_name
+    g["class"] = (type(e).__name__ == cls_name, f"raised {type(e).__name__}: {e!r}"[:200] + f", expected {cls_name}")
+    if type(e).__name__ != cls_name:
+        return g  # another kind of exception has none of the expected attributes
     if cls_name == "ValueConstraintViolatedError":
         c = getattr(e, "constraint", None)
         if "constraint_path" in fields:
